@@ -46,7 +46,23 @@ def all_units():
 
 
 def units_for(prop):
-    return [u for u in all_units().values() if prop in u.get("properties", []) and not u.get("disabled") and not u.get("library")]
+    """units serving `prop`, plus (transitively) every unit they include: an included unit's functions
+    are contract-only stubs inside the including unit's parts, so their bodies are verified by running
+    the included unit itself."""
+    us = all_units()
+    sel = [u for u in us.values() if prop in u.get("properties", []) and not u.get("disabled") and not u.get("library")]
+    seen = {u["id"] for u in sel}
+    work = list(sel)
+    while work:
+        u = work.pop()
+        for inc in u.get("include", []):
+            if inc not in seen and inc in us:
+                seen.add(inc)
+                sel.append(us[inc])
+                work.append(us[inc])
+    # a unit included by another selected unit that has no parts is verified there in full
+    full_includers = {inc for u in sel if not u.get("part") for inc in u.get("include", [])}
+    return [u for u in sel if u["id"] not in full_includers]
 
 
 # ------------------------------------------------------------------------------------------------
@@ -97,7 +113,7 @@ def run_unit(unit_dir, tag, tier, want_neg=True, only_part=None):
             if b is None:
                 continue
             for p in b.pieces:
-                if p.kind == "stub" and p.fnpath not in verified and not p.opts.get("stub_only"):
+                if p.kind == "stub" and p.fnpath not in verified and not p.opts.get("stub_only") and not getattr(p, "included", False):
                     r["undecided"].append("function %s is stubbed in part %s but verified in no part" % (p.fnpath, r["unit"]))
     return out
 
@@ -394,7 +410,11 @@ def check_property(prop, tier, quiet=False):
     known = load_known()
     known_for = [k for k in known.get("findings", []) if k.get("property") == prop]
     real_violations = []
+    seen_ob = set()
     for v in violations:
+        if v["obligation"] in seen_ob:
+            continue
+        seen_ob.add(v["obligation"])
         k = next((k for k in known_for if k.get("obligation") == v["obligation"]), None)
         if k is not None:
             lines.append("KNOWN-FINDING: property=%s %s" % (prop, k.get("what", v["obligation"])))
